@@ -96,7 +96,8 @@ func identFor(cred string) *wl.Ident {
 func tlsScript(config int, tag string) [][]byte {
 	var items [][]byte
 	if config == 2 {
-		items = append(items, resp.Cmd("AUTH", tlsPassword))
+		// with a password configured a TLS client, whatever its certificate, runs nothing before AUTH
+		items = append(items, resp.Cmd("GET", "pre:"+tag), resp.Cmd("AUTH", tlsPassword))
 	}
 	items = append(items, resp.Cmd("GET", "key:"+tag), resp.Cmd("PING"))
 	return items
@@ -116,6 +117,9 @@ func runC09(t *testing.T, tape *sim.Tape, tier string) *Outcome {
 			if strings.Contains(call.Sig, "key:"+tag) {
 				calls[tag]++
 			}
+		}
+		if strings.Contains(call.Sig, "pre:") {
+			calls["before-auth"]++
 		}
 		cl.S.Logf("calls", "%s", call.Sig)
 	}
@@ -147,6 +151,13 @@ func runC09(t *testing.T, tape *sim.Tape, tier string) *Outcome {
 	}
 	var faulties []*tlsClient
 	var faultyPlains []*client
+	// half of the repeated runs: the same client reconnects one connection after the other with a TLS session
+	// cache, so later connections resume the session of the first (no certificate exchange of their own)
+	var sessions tls.ClientSessionCache
+	if repeat > 1 && sc.Fault == "complete" && tape.Draw(2, "resume") == 1 {
+		sessions = tls.NewLRUClientSessionCache(4)
+		o.stat("runs_with_session_resumption_attempts", 1)
+	}
 	for k := 0; k < repeat; k++ {
 		name := "faulty"
 		if k > 0 {
@@ -162,6 +173,7 @@ func runC09(t *testing.T, tape *sim.Tape, tier string) *Outcome {
 		default:
 			cfg := p.ClientConfig(identFor(sc.Cred))
 			cfg.MaxVersion = maxVer()
+			cfg.ClientSessionCache = sessions
 			f := cl.addTLSClient(name, tlsAddr, cfg, tlsScript(sc.Config, "faulty"))
 			if sc.Fault != "complete" {
 				f.Fault = sc.Fault
@@ -208,8 +220,12 @@ func runC09(t *testing.T, tape *sim.Tape, tier string) *Outcome {
 	case 2: // after
 		gate = func() bool { return goodA.Finished && goodB.Finished }
 	}
-	for _, f := range faulties {
+	for k, f := range faulties {
 		f.DialAfter = gate
+		if sessions != nil && k > 0 {
+			prev := faulties[k-1]
+			f.DialAfter = func() bool { return gate() && prev.Finished }
+		}
 	}
 	extra := func() []sim.Action {
 		var acts []sim.Action
@@ -247,6 +263,9 @@ func runC09(t *testing.T, tape *sim.Tape, tier string) *Outcome {
 				}
 			}
 		}
+	}
+	if len(o.Viol) == 0 && calls["before-auth"] > 0 {
+		o.violate(fmt.Sprintf("c09:command-executed-before-auth:config%d", sc.Config), "%s: %d handler calls were made on TLS connections that had not sent AUTH yet", where, calls["before-auth"])
 	}
 	// 2. containment: the well-behaved clients of the run were served
 	if len(o.Viol) == 0 {
@@ -324,7 +343,7 @@ func init() {
 	register(&Check{
 		ID: "C09", Bubble: true, Run: runC09,
 		Runs:   map[string]int{"quick": 20 * n, "thorough": 1500 * n},
-		Rule:   fmt.Sprintf("the scenario space {no rule, common-name rule, rule+password} x {no certificate, self-signed, foreign CA, expired, right CA wrong name, right name only on an intermediate, right CA right name, plain-text bytes, garbage; abort after ClientHello; stalled handshake with and without a valid certificate} x {before, between, after well-behaved clients} = %d scenarios is enumerated completely (run index mod %d); per scenario the schedule (accept loop vs. handshake records vs. other clients), record chunking and TLS 1.2/1.3 are sampled; distinct = distinct (scenario, event-log hash) pairs", n, n),
+		Rule:   fmt.Sprintf("the scenario space {no rule, common-name rule, rule+password} x {no certificate, self-signed, foreign CA, expired, right CA wrong name, right name only on an intermediate, right CA right name, plain-text bytes, garbage; abort after ClientHello; stalled handshake with and without a valid certificate} x {before, between, after well-behaved clients} = %d scenarios is enumerated completely (run index mod %d); per scenario the schedule (accept loop vs. handshake records vs. other clients), record chunking and TLS 1.2/1.3 are sampled; a third of the runs repeat the scenario client 2..12 times, half of those one after the other with a shared TLS session cache (resumed sessions); with rule+password every TLS client first sends a command before AUTH, which must not reach the handler; distinct = distinct (scenario, event-log hash) pairs", n, n),
 		Real:   []string{"redis.Server TLS accept loop and handshake, NewTLSConfigFrom, auth.CertificateAuthenticator, auth.AuthManager, crypto/tls (server and clients), crypto/x509 verification against the simulated clock"},
 		Stub:   []string{"network: simulated", "certificates: deterministic Ed25519 PKI valid relative to the bubble epoch", "handler: recording double"},
 		Assume: []string{"a plain client counts as served when it gets any reply to PING (with rule+password it cannot authenticate on the plain port)"},
